@@ -29,6 +29,7 @@ type Prog struct {
 	Funcs       []*ssa.Function
 	CanaryFuncs []*ssa.Function
 	GOARCH      string
+	sites       map[*ssa.Function][]ssa.CallInstruction
 }
 
 var expectedPkgs = []string{"barcode", "aztec", "codabar", "code128", "code39", "code93", "datamatrix", "ean", "pdf417", "qr", "twooffive", "utils"}
